@@ -188,6 +188,51 @@ def gen_plan(profile, seed, tier="quick"):
         regs[c].append((r, fam, "fwd", rg and gm in ("ambient", "enable_grad")))
         return r, fam
 
+    def other_dtype(d):
+        return "float64" if d == "float32" else "float32"
+
+    def sibling(c, prog, o):
+        """Re-issue an operation with ONE thing changed (dtype, values, layout,
+        grad mode, None pattern...), before or after the original, usually on
+        the same client: histories of the form 'nearly the same call twice',
+        one of which may legitimately fail - state keyed by too little (shape
+        but not dtype / mode / None pattern) lives here."""
+        import copy as _copy
+        sb = _copy.deepcopy(o)
+        sb["id"] = new_id()
+        nreg[0] += 1
+        sb["out"] = "r%d" % nreg[0]
+        sb["i6"] = False
+        if o["op"] == "call":
+            how = _wchoice(rng, [("dtype", 4), ("values", 2), ("layout", 1.5), ("grad", 1.5)])
+            if how == "dtype":
+                sb["arg"]["dtype"] = other_dtype(sb["arg"]["dtype"])
+            elif how == "values":
+                sb["arg"]["seed"] = rng.randrange(1 << 30)
+            elif how == "layout":
+                sb["arg"]["layout"] = _pick(rng, ["contig", "transposed", "step", "offset", "chlast"])
+            else:
+                sb["grad_mode"] = _pick(rng, ["ambient", "no_grad", "inference"])
+                sb["requires_grad"] = not o["requires_grad"]
+        else:
+            how = _wchoice(rng, [("dtype", 4), ("mask", 3), ("perturb", 1), ("shape", 1)])
+            if how == "dtype":
+                sb["cast"] = "float64" if rng.random() < 0.5 else "float32"
+            elif how == "mask":
+                sb["mask"] = [_pick(rng, ["keep", "none"]) for _ in range(3)]
+            elif how == "perturb":
+                sb["perturb"] = 0.5 if not o.get("perturb") else 0.0
+            else:
+                sb["as_tuple"] = not o.get("as_tuple")
+            if rng.random() < 0.5 and not sb.get("mask"):
+                sb["mask"] = o.get("mask") or ["keep", "keep", "none"]
+        target = prog if (n_clients == 1 or rng.random() < 0.8) else programs[rng.randrange(n_clients)]
+        if target is prog and rng.random() < 0.5:
+            prog.insert(len(prog) - 1, sb)       # the variant first, then the original
+        else:
+            target.append(sb)
+        knobs["siblings"] = knobs.get("siblings", 0) + 1
+
     for c in range(n_clients):
         n_ops = max(2, n_ops_total // n_clients + rng.randrange(-1, 2))
         prog = programs[c]
@@ -201,6 +246,8 @@ def gen_plan(profile, seed, tier="quick"):
                 prog.append(construct_op(cs))
             elif k == "call":
                 emit_call(c, prog, _pick(rng, fwd_slots))
+                if profile != "C18" and rng.random() < 0.25:
+                    sibling(c, prog, prog[-1])
             elif k == "roundtrip":
                 pairs = [(i, j) for i in fwd_slots for j in inv_slots
                          if catalog.INV_OF.get(slots[i]) == slots[j]]
@@ -246,9 +293,12 @@ def gen_plan(profile, seed, tier="quick"):
                 prog.append({"op": "inverse", "id": new_id(), "slot": s, "src": r, "out": out,
                              "mask": mask, "perturb": _pick(rng, [0.0, 0.0, 0.5]),
                              "rg_low": rg_low, "rg_high": rg_high, "grad_mode": gm,
-                             "seed": rng.randrange(1 << 30), "i6": rng.random() < 0.3})
+                             "seed": rng.randrange(1 << 30), "i6": rng.random() < 0.3,
+                             "as_tuple": rng.random() < 0.2, "low_view": rng.random() < 0.2})
                 regs[c].append((out, catalog.INV_OF[f], "inv",
                                 (rg_low or rg_high) and gm in ("ambient", "enable_grad")))
+                if rng.random() < 0.35:
+                    sibling(c, prog, prog[-1])
             elif k == "backward":
                 cands = [r for (r, f, kd, rg) in regs[c] if rg]
                 if not cands:
